@@ -47,6 +47,29 @@ def gen_cases(ctx):
                "recirc": rng.random() < 0.0, "instance": {"cls": "generated"}}
 
 
+def make_quitter(d, rng):
+    """An observer subscribed right before the reward observers that unsubscribes itself
+    from inside its n-th update (the reward observers must still get that dispatch)."""
+    from job_shop_lib.dispatching import DispatcherObserver
+
+    class Quitter(DispatcherObserver):
+        _is_singleton = False
+
+        def __init__(self, dispatcher, after):
+            super().__init__(dispatcher)
+            self.after = after
+            self.n = 0
+
+        def update(self, scheduled_operation):
+            self.n += 1
+            if self.n == self.after and self in self.dispatcher.subscribers:
+                self.dispatcher.unsubscribe(self)
+
+        def reset(self):
+            pass
+    return Quitter(d, rng.randint(1, 3))
+
+
 def check_prefix(ctx, r: Ref, mk, idle, k, where, extra=None):
     ctx.count("prefix_checks")
     w = {"where": where, "k": k, "history": list(r.history)}
@@ -109,9 +132,13 @@ def run_case(ctx, case):
                               {"subscribers": [repr(x) for x in run.d.subscribers]})
             mk, idle = mk2, idle2
         elif order:
+            quitter = make_quitter(run.d, rng) if case["seed"] % 4 == 0 else None
             mk = MakespanReward(run.d); idle = IdleTimeReward(run.d)
         else:
+            quitter = make_quitter(run.d, rng) if case["seed"] % 4 == 0 else None
             idle = IdleTimeReward(run.d); mk = MakespanReward(run.d)
+        if kind == "standalone" and case["seed"] % 4 == 0:
+            ctx.count("observer_unsubscribing_itself_before_rewards")
         if kind == "standalone_reset":
             n = rng.randint(1, run.r.num_ops)
             for _ in range(n):
@@ -128,6 +155,22 @@ def run_case(ctx, case):
             run.dispatch(o, m)
             k += 1
             check_prefix(ctx, run.r, mk, idle, k, kind)
+            if k == 2 and case["seed"] % 5 == 0 and not run.done():
+                # a deep copy of the dispatcher (e.g. for look-ahead) is independent: dispatching
+                # on it must leave the original's reward streams untouched
+                import copy
+                dup = copy.deepcopy(run.d)
+                before_rewards = (list(mk.rewards), list(idle.rewards))
+                nxt = dup.raw_ready_operations()[0]
+                dup.dispatch(nxt, nxt.machines[0])
+                ctx.count("deepcopy_lookahead_checks")
+                if (list(mk.rewards), list(idle.rewards)) != before_rewards:
+                    ctx.violation("c13_dispatch_on_a_deep_copy_changed_the_original_rewards",
+                                  {"before": before_rewards, "after": [list(mk.rewards), list(idle.rewards)]})
+                dup_rewards = [x for x in dup.subscribers if hasattr(x, "rewards")]
+                if any(len(x.rewards) != k + 1 for x in dup_rewards):
+                    ctx.violation("c13_deep_copy_reward_count",
+                                  {"counts": [len(x.rewards) for x in dup_rewards], "expected": k + 1})
             flat |= run.r.makespan() == before
             gaps |= idle.rewards[-1] < 0 if idle.rewards else False
         ctx.note_case(case, flat and gaps, fingerprint=str(hash(
